@@ -155,6 +155,7 @@ func init() {
 		setup(B)
 		for k := 0; k < n; k++ {
 			r := NewRng(rng.U64())
+			out.Emit("reset", "ok", "reset", false)
 			signer := 1 + r.Intn(3)
 			// the panicking message: one-sided add for more than the signer holds
 			var amt *big.Int
